@@ -18,7 +18,7 @@ def run(ctx):
     r = ctx.tlc("MC_Width", "MC_Width.cfg").require_clean()
     res.add_tlc(r)
     # the last `systematic` cases are single deviations from well-formed skeletons (every key x every value class)
-    systematic = 1471
+    systematic = 1531
     count = (1000 if q else 12000) + systematic
     events = []
     start = 0
@@ -26,6 +26,9 @@ def run(ctx):
     while start < count and restarts <= 25:
         evs, rc, txt = run_harness(ctx, "pub", "TestVerifRender", {"from": start, "count": count, "systematic": systematic}, timeout=3000, allow_fail=True, name="render-%d" % start)
         events += [e for e in evs if e["ev"] == "render"]
+        for m in evs:
+            if m["ev"] == "meta" and m["systematic"] != systematic:
+                raise vlib.Inconclusive("the driver has %d systematic cases, the check expects %d" % (m["systematic"], systematic))
         if rc == 0:
             break
         begun = [e for e in evs if e["ev"] == "begin"]
@@ -47,7 +50,7 @@ def run(ctx):
     res.extra["process_restarts"] = restarts
     res.rule = ("a case is one seeded JSON value (random keys of the ActivityStreams vocabulary x value classes, deep embeddings, huge/negative "
                 "numbers, markup bodies nested up to 200 levels or thousands of elements, in all four media types) built through one of six "
-                "constructors and exercised (String/Preview at 13 widths from -10 to 300, Name, Timestamp, Parents, Children.Harvest, "
+                "constructors and exercised (String/Preview at 14 widths from -10 to 1004, Name, Timestamp, Parents, Children.Harvest, "
                 "SelectLink at 8 integers incl. min/max int, Media/ProfilePic/Banner/Actor/Target); judged by T_Outcome (returned normally "
                 "within 5 s); distinct = distinct case index")
     for e in events[:2] + slow[:1]:
